@@ -302,6 +302,7 @@ func runHist(c *Ctx) {
 		}
 		j := jobs[i]
 		say("B %d", i)
+		say("J %d\t%s", i, c56.CaseText("c05", j, "alias=%d"))
 		tj := time.Now()
 		for _, mode := range modes {
 			if j.Origin == "corpus" && mode == 1 {
@@ -316,6 +317,9 @@ func runHist(c *Ctx) {
 					break
 				}
 				continue
+			}
+			if digest == "" {
+				digest = "0 -"
 			}
 			say("H %d %d %s %s", i, mode, j.Origin, digest)
 			if d := time.Since(tj); d > 300*time.Millisecond && mode == 2 {
